@@ -24,28 +24,42 @@ SizesOf(k, nb, tail, big) ==
        [] big = "first" -> <<Big>> \o base
        [] big = "mid" -> SubSeq(base, 1, k * (nb \div 2)) \o <<Big>> \o SubSeq(base, k * (nb \div 2) + 1, Len(base))
 
-Seg(sz) == LET blocks == Cut([i \in 1..Len(sz) |-> i], sz, B)
-           IN [sizes |-> sz, blocks |-> Len(blocks), layers |-> NumLayers(blocks)]
+ShiftIds(blocks, n) == [b \in 1..Len(blocks) |-> [ids |-> [j \in 1..Len(blocks[b].ids) |-> blocks[b].ids[j] + n], bytes |-> blocks[b].bytes]]
+BlocksOf(sz) == Cut([i \in 1..Len(sz) |-> i], sz, B)
+SegRec(sz, blocks) == [sizes |-> sz, blocks |-> Len(blocks), layers |-> NumLayers(blocks)]
 
-Case(k, nb, tail, big, shape, c) ==
-  LET s1 == SizesOf(k, nb, tail, big)
-      s2 == IF shape = "mixed" THEN SizesOf(k, 2, 0, "none") ELSE s1
-      segs == IF shape \in {"single", "del_only"} THEN <<Seg(s1)>> ELSE <<Seg(s1), Seg(s2)>>
-      n1 == Len(s1)
+\* s1/b1/r1: sizes, blocks, record of the main segment; s2/b2/r2 of the small one (2 blocks)
+Case(k, nb, tail, big, shape, c, s1, b1, r1, s2, b2, r2) ==
+  LET n1 == Len(s1)
       dels == IF shape \in {"recompress_del", "del_only"} THEN {1, (n1 + 1) \div 2, n1} ELSE {}
-      b1 == Cut([i \in 1..n1 |-> i], s1, B)
+      st1 == Stacks(b1, AllAlive(b1) \ {d - 1 : d \in dels}, TRUE)
+      srcB == IF shape \in {"single", "del_only"} THEN <<b1>> ELSE IF shape = "mixed" THEN <<b1, ShiftIds(b2, n1)>> ELSE <<b1, ShiftIds(b1, n1)>>
+      al1 == AllAlive(b1) \ {d - 1 : d \in dels}
+      alv == IF Len(srcB) = 1 THEN <<al1>> ELSE <<al1, AllAlive(srcB[2])>>
+      szs == IF shape = "mixed" THEN s1 \o s2 ELSE s1 \o s1
+      rev(q) == IF Len(q) = 1 THEN q ELSE <<q[2], q[1]>>
   IN [k |-> k, nb |-> nb, tail |-> tail, big |-> big, shape |-> shape, cache |-> c, blocksize |-> B,
-      segs |-> segs, deletes |-> dels, merge |-> shape # "single",
-      expect_stack |-> [i \in 1..Len(segs) |->
-          IF i = 1 THEN Stacks(b1, AllAlive(b1) \ {d - 1 : d \in dels}, TRUE)
-          ELSE Stacks(Cut([j \in 1..Len(s2) |-> j], s2, B), 0..(Len(s2) - 1), TRUE)]]
+      merged_blocks |-> IF shape = "single" THEN <<>>
+                        ELSE <<Len(Merge(srcB, alv, szs, B)), Len(Merge(rev(srcB), rev(alv), szs, B))>>,
+      segs |-> IF shape \in {"single", "del_only"} THEN <<r1>> ELSE IF shape = "mixed" THEN <<r1, r2>> ELSE <<r1, r1>>,
+      deletes |-> dels, merge |-> shape # "single",
+      expect_stack |-> IF shape \in {"single", "del_only"} THEN <<st1>>
+                       ELSE IF shape = "mixed" THEN <<st1, Stacks(b2, AllAlive(b2), TRUE)>>
+                       ELSE <<st1, Stacks(b1, AllAlive(b1), TRUE)>>]
 
 VARIABLE done
 GInit ==
   /\ Init /\ done = FALSE
-  /\ \A k \in PerBlock : \A nb \in NumBlocksSet : \A tail \in {0, 1} : \A big \in {"none", "first", "mid"} :
-       \A shape \in Shapes : \A c \in Caches :
-         (tail = 1 /\ k = 1) \/ PrintT(<<"CASE", ToJson(Case(k, nb, tail, big, shape, c))>>)
+  /\ LET s2 == SizesOf(2, 2, 0, "none")
+         b2 == BlocksOf(s2)
+         r2 == SegRec(s2, b2)
+     IN \A k \in PerBlock : \A nb \in NumBlocksSet : \A tail \in {0, 1} : \A big \in {"none", "first", "mid"} :
+          (tail = 1 /\ k = 1) \/
+          LET s1 == SizesOf(k, nb, tail, big)
+              b1 == BlocksOf(s1)
+              r1 == SegRec(s1, b1)
+          IN \A shape \in Shapes : \A c \in Caches :
+               PrintT(<<"CASE", ToJson(Case(k, nb, tail, big, shape, c, s1, b1, r1, s2, b2, r2))>>)
 GNext == done' = TRUE /\ UNCHANGED svars
 GSpec == GInit /\ [][GNext]_<<done, svars>>
 =============================================================================
